@@ -170,6 +170,20 @@ fn space(sink: &mut Sink, rng: &mut Rng, thorough: bool) {
       model_op("sp_con", std::panic::catch_unwind(AssertUnwindSafe(|| flat_cells(&m.contracted()))));
       model_op("sp_ext", std::panic::catch_unwind(AssertUnwindSafe(|| flat_cells(&m.external_border()))));
       model_op("sp_int", std::panic::catch_unwind(AssertUnwindSafe(|| flat_cells(&m.internal_border()))));
+      // the same four operations on the NARROWER index types (u32, u16: the edge cells go through a u64 -> T
+      // conversion the u64 MOCs never exercise): same cells expected
+      macro_rules! narrow {
+        ($T:ty, $w:expr) => {{
+          let mt: RangeMOC<$T, Hpx<$T>> = RangeMOC::from_fixed_depth_cells(depth, s.iter().map(|c| *c as $T), None);
+          let fl = |x: RangeMOC<$T, Hpx<$T>>| -> BTreeSet<u64> { x.flatten_to_fixed_depth_cells().map(|c| c as u64).collect() };
+          model_op("sp_exp", std::panic::catch_unwind(AssertUnwindSafe(|| fl(mt.expanded()))));
+          model_op("sp_con", std::panic::catch_unwind(AssertUnwindSafe(|| fl(mt.contracted()))));
+          model_op("sp_ext", std::panic::catch_unwind(AssertUnwindSafe(|| fl(mt.external_border()))));
+          model_op("sp_int", std::panic::catch_unwind(AssertUnwindSafe(|| fl(mt.internal_border()))));
+        }};
+      }
+      if i % 3 == 0 { narrow!(u32, 32); }
+      if i % 3 == 1 { narrow!(u16, 16); }
       for indirect in [false, true] {
         let got = std::panic::catch_unwind(AssertUnwindSafe(|| {
           let mut parts: Vec<Vec<u64>> = m.split_into_joint_mocs(indirect).into_iter()
